@@ -134,6 +134,38 @@ int main(void)
 			free(ct); free(vt); free(cb.tmp_tab_symbols); of_mod2dense_free(m);
 			goto next;
 		}
+		if (!strcmp(op, "solves")) {
+			/* tall systems given sparsely: "solves p q len r:bits:rhs;r:bits:rhs;..." - every row not listed is zero with a NULL
+			 * right-hand side; rhs is N or 2*len hex digits */
+			unsigned p, q, len;
+			if (sscanf(line, "%*s %u %u %u %s", &p, &q, &len, w1) != 4 || !p || !q) { printf("\n@bad-op\n"); goto next; }
+			of_mod2dense *m = of_mod2dense_allocate(p, q);
+			void **ct = calloc(p, sizeof(void *)), **vt = calloc(q, sizeof(void *));
+			const char *s = w1;
+			while (*s) {
+				unsigned r = (unsigned)strtoul(s, (char **)&s, 10);
+				if (*s != ':' || r >= p) break;
+				s++;
+				for (unsigned j = 0; j < q && (*s == '0' || *s == '1'); j++, s++) if (*s == '1') of_mod2dense_set(m, r, j, 1);
+				if (*s != ':') break;
+				s++;
+				if (*s == 'N') s++;
+				else { unsigned char *x = malloc(len ? len : 1); for (unsigned t = 0; t < len; t++) { x[t] = (unsigned char)(hexval(s[0]) * 16 + hexval(s[1])); s += 2; } free(ct[r]); ct[r] = x; }
+				if (*s == ';') s++;
+			}
+			of_linear_binary_code_cb_t cb; memset(&cb, 0, sizeof cb);
+			cb.encoding_symbol_length = len;
+			cb.tmp_tab_symbols = calloc(p + q + 1, sizeof(void *));
+			of_status_t st = of_linear_binary_code_solve_dense_system(&cb, m, ct, vt);
+			printf("\n@ok st=%s", st == OF_STATUS_OK ? "OK" : st == OF_STATUS_FAILURE ? "FAILURE" : "OTHER");
+			if (st == OF_STATUS_OK) { printf(" x=");
+				for (unsigned j = 0; j < q; j++) { for (unsigned t = 0; t < len; t++) printf("%02x", vt[j] ? ((unsigned char *)vt[j])[t] : 0); printf(";"); } }
+			printf("\n");
+			for (unsigned i = 0; i < p; i++) free(ct[i]);
+			for (unsigned j = 0; j < q; j++) free(vt[j]);
+			free(ct); free(vt); free(cb.tmp_tab_symbols); of_mod2dense_free(m);
+			goto next;
+		}
 		int n = sscanf(line, "%*s %u %u %u %u", &a, &b, &c, &d);
 		if (n < 1 || a >= NS) { printf("\n@bad-op\n"); goto next; }
 		/* ---- sparse ---- */
